@@ -215,6 +215,8 @@ func scripted(ctx *common.Ctx, em *emitter) error {
 		}
 	}
 	S(&upd{Kind: "MailboxUpdated", MboxRID: "b1", Name: "A2"}, "fresh")
+	S(&upd{Kind: "MailboxUpdated", MboxRID: "b1", Name: "a2"}, "fresh") // only the letter case changes: still a rename
+	S(&upd{Kind: "MailboxUpdated", MboxRID: "b1", Name: "A2"}, "fresh")
 	one(&upd{Kind: "MailboxUpdated", MboxRID: "0", Name: "inbox"}, "restate")
 	one(&upd{Kind: "MailboxUpdated", MboxRID: "0", Name: "INBOX"}, "restate")
 	one(&upd{Kind: "MailboxUpdated", MboxRID: "b1", Name: "B2"}, "invalid") // name taken
@@ -474,6 +476,13 @@ func randomEpisode(ctx *common.Ctx, em *emitter, epi int, steps int) error {
 			u = &upd{Kind: "MailboxUpdated", MboxRID: pickMb(), Name: namePool[rng.Pick(len(namePool))]}
 			if u.MboxRID == "0" { // INBOX keeps its name (a connector may only restate it, in any case)
 				u.Name = []string{"INBOX", "inbox", "Inbox"}[rng.Pick(3)]
+			} else if mb := sn.mbByRID(u.MboxRID); mb != nil && rng.Chance(0.3) {
+				// a rename that changes nothing but the letter case
+				if x := strings.ToLower(mb.Name); x != mb.Name {
+					u.Name = x
+				} else {
+					u.Name = strings.ToUpper(mb.Name)
+				}
 			}
 		case k < 26:
 			if len(mbs) > 0 {
